@@ -250,6 +250,17 @@ class Flow:
             return out
         if isinstance(e, ast.Call):
             out = set()
+            if (
+                getattr(self, "copies_transparent", False)
+                and isinstance(e.func, ast.Name)
+                and e.func.id in ("list", "tuple", "sorted", "reversed", "iter")
+                and len(e.args) == 1
+                and not isinstance(e.args[0], ast.Starred)
+                and not self.is_local(e.func.id)
+            ):
+                # (opt-in, for rules that ask where the *elements* come from: a shallow copy of
+                # a collection holds the same elements)
+                return {f"copy({r})" for r in R(e.args[0])}
             for t in self.repo.resolve_call(e, self.d, self.d.module):
                 if t.kind in ("def", "ext", "builtin", "class"):
                     out.add(f"call:{t.qual}")
